@@ -95,4 +95,59 @@ mod verif_replay_sendio {
     fn verif_replay_sendio_internal() {
         assert_eq!(run(&doc(r##"target="#_internal""##)), Ok(vec!["got".to_string()]));
     }
+
+    /// parent/child pair: the child sends `child.msg` with the given <send> attributes; the parent ends in "delivered"
+    /// when it receives it, in "lost" after 2 s, the child itself reports `child.echo` when it gets its own event
+    fn routed_doc(child_send_attrs: &str) -> String {
+        format!(
+            r###"<scxml xmlns="http://www.w3.org/2005/07/scxml" initial="s0" version="1.0" datamodel="rfsm-expression">
+ <state id="s0">
+  <onentry><send event="timeout" delay="2s"/></onentry>
+  <invoke type="scxml" id="kid"><content><scxml xmlns="http://www.w3.org/2005/07/scxml" initial="c0" version="1.0" datamodel="rfsm-expression"><state id="c0"><onentry><send {} event="child.msg"/></onentry><transition event="child.msg" target="c1"/></state><state id="c1"><onentry><send target="#_parent" event="child.echo"/></onentry></state></scxml></content></invoke>
+  <transition event="child.msg" target="delivered"/>
+  <transition event="child.echo" target="misrouted"/>
+  <transition event="timeout" target="lost"/>
+ </state>
+ <final id="delivered"/><final id="misrouted"/><final id="lost"/>
+</scxml>"###,
+            child_send_attrs
+        )
+    }
+
+    /// C15: the target of a <send> decides where the event goes, whether it is literal or computed (targetexpr) and
+    /// whether the send is immediate or delayed
+    #[test]
+    fn verif_replay_sendio_target_forms_reach_the_parent() {
+        for attrs in [
+            r##"target="#_parent""##,
+            r##"targetexpr="'#_parent'""##,
+            r##"target="#_parent" delay="100ms""##,
+            r##"targetexpr="'#_parent'" delay="100ms""##,
+            r##"targetexpr="'#_parent'" delayexpr="'100ms'""##,
+        ] {
+            assert_eq!(run(&routed_doc(attrs)), Ok(vec!["delivered".to_string()]), "child <send {}>", attrs);
+        }
+    }
+
+    /// C15: a reply sent to _event.origin (immediately or delayed) reaches the session the event came from
+    #[test]
+    fn verif_replay_sendio_reply_to_origin() {
+        for delay in ["", r#"delay="100ms""#] {
+            let doc = format!(
+                r###"<scxml xmlns="http://www.w3.org/2005/07/scxml" initial="s0" version="1.0" datamodel="rfsm-expression">
+ <state id="s0">
+  <onentry><send event="timeout" delay="2s"/></onentry>
+  <invoke type="scxml" id="kid"><content><scxml xmlns="http://www.w3.org/2005/07/scxml" initial="c0" version="1.0" datamodel="rfsm-expression"><state id="c0"><onentry><send target="#_parent" event="child.question"/></onentry><transition event="answer" target="c1"/></state><state id="c1"><onentry><send target="#_parent" event="child.thanks"/></onentry></state></scxml></content></invoke>
+  <transition event="child.question"><send event="answer" targetexpr="_event.origin" {}/></transition>
+  <transition event="answer" target="misrouted"/>
+  <transition event="child.thanks" target="delivered"/>
+  <transition event="timeout" target="lost"/>
+ </state>
+ <final id="delivered"/><final id="misrouted"/><final id="lost"/>
+</scxml>"###,
+                delay
+            );
+            assert_eq!(run(&doc), Ok(vec!["delivered".to_string()]), "reply with <send {}>", delay);
+        }
+    }
 }
